@@ -101,7 +101,9 @@ OPS = ["sm2_keygen", "sm2_sign", "sm2_sign_ctx", "sm2_decrypt", "sm2_decrypt_bad
        # the connection dies inside an application record (header and part of the body arrive, then EOF) after data was exchanged
        "hs_tlcp_appcut", "hs_tls12_appcut", "hs_tls13_appcut", "hs_tls13_appcut",
        # one side closes (tls_shutdown) while data sent by the peer is still unread in flight
-       "hs_tlcp_shutunread", "hs_tls12_shutunread", "hs_tls13_shutunread"]
+       "hs_tlcp_shutunread", "hs_tls12_shutunread", "hs_tls13_shutunread",
+       # the transport dies under an established connection, then both sides try to send (and to read): the failure paths of sending
+       "hs_tlcp_sendfail", "hs_tls12_sendfail", "hs_tls13_sendfail", "hs_tls12_mutual_sendfail"]
 case_s = st.fixed_dictionaries({"op": st.sampled_from(OPS), "seed": st.integers(0, 1 << 20), "n": st.integers(1, 200)})
 
 _PKI = {}
@@ -188,6 +190,18 @@ def _handshake(ctx, proto, mutual, defect, seed, secrets):
                     secrets["application plaintext (unread at close, 2)"] = late[::-1]
                 rcv.do("shutdown", timeout=10.0)
                 snd.do("recv", 4096, timeout=10.0)
+            if defect == "sendfail":
+                s.proxy.close_all()
+                order = (s.client, s.server) if seed & 1 else (s.server, s.client)
+                for j, ep in enumerate(order):
+                    for k in range(1 + (seed >> 1) % 2):
+                        late = hashlib.shake_128(b"c19 dead %d/%d/%d" % (seed, j, k)).digest(64 + 40 * k)
+                        secrets["application plaintext (sent into a dead transport, %d/%d)" % (j, k)] = late
+                        ep.do("send", late, timeout=10.0)
+                    if seed & 4:
+                        ep.do("recv", 4096, timeout=10.0)
+                    if seed & 8:
+                        ep.do("shutdown", timeout=10.0)
             if defect == "appcut":
                 snd, rcv = (s.client, s.server) if seed & 1 else (s.server, s.client)
                 state["cut"] = True
@@ -255,7 +269,7 @@ def ops(case, ctx):
             parts = op.split("_")
             proto = parts[1]
             mutual = "mutual" in parts or "badclient" in parts
-            defect = next((x for x in ("untrusted", "badclient", "apptamper", "appcut", "shutunread", "tamper") if x in parts), None)
+            defect = next((x for x in ("untrusted", "badclient", "apptamper", "appcut", "shutunread", "sendfail", "tamper") if x in parts), None)
             _handshake(ctx, proto, mutual, defect, seed, secrets)
             # the random values sent in the clear (hello randoms, key shares' public part) are not secrets, but the first
             # 32-byte draws also contain them: keep only draws that never appear on the wire - decided below by exclusion
